@@ -290,4 +290,40 @@ theorem reachable_inv (ops : List Op) : Inv (run {} ops) := by
   | nil => intro st h; exact h
   | cons op rest ih => intro st h; exact ih _ (inv_step h op)
 
+theorem release_nextSid (st : St) (m v : Nat) : (release st m v).nextSid = st.nextSid := by
+  unfold release
+  split
+  · rfl
+  · split <;> rfl
+
+theorem bind_nextSid (st : St) (m : Nat) (n : String) (v : Nat) : (bind st m n v).nextSid = st.nextSid := by
+  unfold bind
+  split
+  · rfl
+  · rw [release_nextSid]
+
+theorem bindItems_nextSid (m : Nat) : ∀ (items : List Item) (st : St), (bindItems st m items).nextSid = st.nextSid
+  | [], _ => rfl
+  | it :: rest, st => by
+    unfold bindItems
+    split
+    · rw [bindItems_nextSid m rest, bind_nextSid]
+    · exact bindItems_nextSid m rest st
+
+/-- `AbsPrivate` for every pair of models of the session - a decidable predicate on the state -/
+def AbsPrivateAll (st : St) : Prop :=
+  ∀ m, m < st.nextModel → ∀ m', m' < st.nextModel → m ≠ m' → AbsPrivate st m m'
+
+instance (st : St) : Decidable (AbsPrivateAll st) := by unfold AbsPrivateAll; infer_instance
+
+theorem boundIn_lt {st : St} (h : Inv st) {m v : Nat} (hb : boundIn st.refs m v = true) : m < st.nextModel := by
+  simp only [boundIn, List.any_eq_true, Bool.and_eq_true, beq_iff_eq] at hb
+  rcases hb with ⟨r, hr, hm, _⟩
+  rw [← hm]; exact h.refLt r hr
+
+theorem absPrivate_of_all {st : St} (h : Inv st) (hall : AbsPrivateAll st) (m m' : Nat) (hne : m ≠ m') :
+    AbsPrivate st m m' := by
+  intro io hio hg s hs s' hs' hb hb'
+  exact hall m (boundIn_lt h hb) m' (boundIn_lt h hb') hne io hio hg s hs s' hs' hb hb'
+
 end MxModel.IOSession
